@@ -190,7 +190,8 @@ pub fn uint(ftx: &FunctionContext, This(this): This<Value>) -> Result<Value> {
             .map(Value::UInt)
             .map_err(|e| ftx.error(format!("string parse error: {e}")))?,
         Value::Float(v) => {
-            if v > u64::MAX as f64 || v < u64::MIN as f64 {
+            // NaN fails both comparisons; 2^64 (= u64::MAX as f64) is already out of range.
+            if !(v >= 0.0 && v < 18446744073709551616.0) {
                 return Err(ftx.error("unsigned integer overflow"));
             }
             Value::UInt(v as u64)
@@ -212,7 +213,8 @@ pub fn int(ftx: &FunctionContext, This(this): This<Value>) -> Result<Value> {
             .map(Value::Int)
             .map_err(|e| ftx.error(format!("string parse error: {e}")))?,
         Value::Float(v) => {
-            if v > i64::MAX as f64 || v < i64::MIN as f64 {
+            // NaN fails both comparisons; 2^63 (= i64::MAX as f64) is already out of range.
+            if !(v >= -9223372036854775808.0 && v < 9223372036854775808.0) {
                 return Err(ftx.error("integer overflow"));
             }
             Value::Int(v as i64)
